@@ -53,6 +53,7 @@ fn main() {
     let a = |i: usize| args.get(i).map(|s| s.as_str()).unwrap_or("");
     let code = match a(1) {
         "selftest" => selftest::run(),
+        "gen-miri" => selftest::gen_miri(),
         // run <prop> <tier> [--runs N] [--workers W] [--digests file]
         "run" => {
             let mut o = RunOpts {
@@ -62,6 +63,7 @@ fn main() {
                 runs_override: None,
                 digests_out: None,
                 quiet: false,
+                write_evidence: true,
             };
             let mut i = 4;
             while i < args.len() {
@@ -79,6 +81,7 @@ fn main() {
                         i += 1;
                     }
                     "--quiet" => o.quiet = true,
+                    "--no-evidence" => o.write_evidence = false,
                     _ => {}
                 }
                 i += 1;
